@@ -117,6 +117,8 @@ def run(prog, ctx):
     # V9: a string is stored letter for letter (and under the key name given) - what econf_getStringValue hands back is a copy of that (= C11.A11)
     from rules import C11 as _C11v
     _C11v.a11_names_kept(prog, ctx, "V9")
+    from rules import common as _commonv
+    _commonv.index_param_rule(prog, ctx, "V9")
     rows = 0
     for sname, gname in conv.SETTERS.items():
         s = prog.fn(sname)
